@@ -31,7 +31,7 @@ contract(C + "_attempt_schemas",
                   "(mode == 'anyOf' or mode == 'oneOf' or mode == 'allOf') and " + PROPERTY_OK,
          raises=[("ValidationError", f"({NONE_ACC}) or (mode == 'oneOf' and {TWO_ACC}) or (mode == 'allOf' and {SOME_REJ})")],
          returns=f"exists(lambda k: {ACC.format(i='k')} and forall(lambda i: not {ACC.format(i='i')}, k) and result is build(elements[k], value), {N})",
-         kinds={"elements": "list", "mode": "str"},
+         kinds={"elements": "list", "mode": "str"}, ghost={"filter_facts": "index"},
          props=["C01", "C04", "C08", "C10", "C19"])
 
 contract(C + "Not.construct",
